@@ -65,6 +65,13 @@ static int no_children (const void *v) {
 	return (nsync_dll_is_empty_ (((nsync_note)v)->children));
 }
 
+/* Return whether n->children is empty, or has received adopted children since
+   the thread disconnecting *n last scanned it.  Assumes n->note_mu held. */
+static int no_children_or_adopted (const void *v) {
+	nsync_note n = (nsync_note) v;
+	return (nsync_dll_is_empty_ (n->children) || n->adoptions != n->adoptions_seen);
+}
+
 #define WAIT_FOR_NO_CHILDREN(pred_, n_) nsync_mu_wait (&(n_)->note_mu, &pred_, (n_), NULL)
 #define WAKEUP_NO_CHILDREN(n_) do { } while (0)
 
@@ -106,20 +113,28 @@ static void note_notify_child (nsync_note n, nsync_note parent) {
 			ATM_STORE_REL (&nw->waiting, 0);
 			nsync_mu_semaphore_v (nw->sem);
 		}
-		for (p = nsync_dll_first_ (n->children); p != NULL; p = next) {
-			nsync_note child = DLL_NOTE (p);
-			next = nsync_dll_next_ (n->children, p);
-			nsync_mu_lock (&child->note_mu);
-			if (child->disconnecting == 0) {
-				/* note_notify_child() may release child->note_mu;
-				   tell other threads not to disconnect *child. */
-				child->disconnecting++;
-				note_notify_child (child, n);
-				child->disconnecting--;
+		/* Children being disconnected by other threads are left to them.
+		   If such a child is being freed, its own children are adopted by
+		   *n while n->note_mu is released below; scan again when that
+		   happens, or they would never leave the list.  */
+		do {
+			n->adoptions_seen = n->adoptions;
+			for (p = nsync_dll_first_ (n->children); p != NULL; p = next) {
+				nsync_note child = DLL_NOTE (p);
+				next = nsync_dll_next_ (n->children, p);
+				nsync_mu_lock (&child->note_mu);
+				if (child->disconnecting == 0) {
+					/* note_notify_child() may release
+					   child->note_mu; tell other threads
+					   not to disconnect *child. */
+					child->disconnecting++;
+					note_notify_child (child, n);
+					child->disconnecting--;
+				}
+				nsync_mu_unlock (&child->note_mu);
 			}
-			nsync_mu_unlock (&child->note_mu);
-		}
-		WAIT_FOR_NO_CHILDREN (no_children, n);
+			WAIT_FOR_NO_CHILDREN (no_children_or_adopted, n);
+		} while (!no_children (n));
 		if (parent != NULL) {
 			parent->children = nsync_dll_remove_ (parent->children,
 						              &n->parent_child_link);
@@ -224,24 +239,29 @@ void nsync_note_free (nsync_note n) {
 		nsync_mu_lock (&parent->note_mu);
 		nsync_mu_lock (&n->note_mu);
 	}
-	for (p = nsync_dll_first_ (n->children); p != NULL; p = next) {
-		nsync_note child = DLL_NOTE (p);
-		next = nsync_dll_next_ (n->children, p);
-		nsync_mu_lock (&child->note_mu);
-		if (child->disconnecting == 0) {
-			n->children = nsync_dll_remove_ (n->children,
-							 &child->parent_child_link);
-			if (parent != NULL) {
-				child->parent = parent;
-				parent->children = nsync_dll_make_last_in_list_ (
-					parent->children, &child->parent_child_link);
-			} else {
-				child->parent = NULL;
+	/* See the comment on the corresponding loop in note_notify_child().  */
+	do {
+		n->adoptions_seen = n->adoptions;
+		for (p = nsync_dll_first_ (n->children); p != NULL; p = next) {
+			nsync_note child = DLL_NOTE (p);
+			next = nsync_dll_next_ (n->children, p);
+			nsync_mu_lock (&child->note_mu);
+			if (child->disconnecting == 0) {
+				n->children = nsync_dll_remove_ (n->children,
+								 &child->parent_child_link);
+				if (parent != NULL) {
+					child->parent = parent;
+					parent->children = nsync_dll_make_last_in_list_ (
+						parent->children, &child->parent_child_link);
+					parent->adoptions++;
+				} else {
+					child->parent = NULL;
+				}
 			}
+			nsync_mu_unlock (&child->note_mu);
 		}
-		nsync_mu_unlock (&child->note_mu);
-	}
-	WAIT_FOR_NO_CHILDREN (no_children, n);
+		WAIT_FOR_NO_CHILDREN (no_children_or_adopted, n);
+	} while (!no_children (n));
 	if (parent != NULL) {
 		parent->children = nsync_dll_remove_ (parent->children,
 						      &n->parent_child_link);
